@@ -2,6 +2,7 @@ CONSTANTS
  Mode = "gen"
  HistLen = 3
  LenientRelabel = FALSE
+ NeedGraph = FALSE
  RestartSets = {{1}, {2}}
 INIT RInit
 NEXT RNext
